@@ -165,6 +165,59 @@ class Fn:
         d = self.dominators()
         return b in d and a in d[b]
 
+    def ipdom(self):
+        """immediate post-dominator per block over normal edges (virtual exit = -1)"""
+        if getattr(self, "_ipdom", None) is not None:
+            return self._ipdom
+        n = len(self.blocks)
+        sm = self.succ_map()
+        succ = {b: (list(sm[b]) or [-1]) for b in range(n)}
+        pred = {b: [] for b in list(range(n)) + [-1]}
+        for b, ss in succ.items():
+            for s in ss:
+                pred[s].append(b)
+        # reverse post-order on the reverse graph from the exit
+        order, seen = [], {-1}
+        stack = [(-1, iter(pred[-1]))]
+        while stack:
+            b, it = stack[-1]
+            adv = False
+            for s in it:
+                if s not in seen:
+                    seen.add(s)
+                    stack.append((s, iter(pred[s])))
+                    adv = True
+                    break
+            if not adv:
+                order.append(b)
+                stack.pop()
+        order.reverse()
+        idx = {b: i for i, b in enumerate(order)}
+        ip = {-1: -1}
+
+        def inter(a, b):
+            while a != b:
+                while idx[a] > idx[b]:
+                    a = ip[a]
+                while idx[b] > idx[a]:
+                    b = ip[b]
+            return a
+        changed = True
+        while changed:
+            changed = False
+            for b in order[1:]:
+                ss = [s for s in succ[b] if s in ip]
+                if not ss:
+                    continue
+                new = ss[0]
+                for s in ss[1:]:
+                    new = inter(new, s)
+                if ip.get(b) != new:
+                    ip[b] = new
+                    changed = True
+        self._ipdom = ip
+        return ip
+
     def back_edges(self):
         dom = self.dominators()
         out = []
